@@ -8,14 +8,15 @@ import numpy as np
 import common as C
 import hydro_common as HC
 
-LEAN_MODULE = "WallGoVerif.Props.C02"
-LEMMA_MODULES = ["WallGoVerif.Lemmas.Hydro"]
+LEAN_MODULES = ["WallGoVerif.Props.C02", "WallGoVerif.Props.C02M"]
+LEMMA_MODULES = ["WallGoVerif.Lemmas.Hydro", "WallGoVerif.Lemmas.Matching", "WallGoVerif.Model.Matching"]
 GEN_MODULES = ["Helpers", "Hydro"]
 VALIDATION_POINTS = (150, 3000)
 RULE = ("obligations = Lean theorems of Props.C02 about regenerated Gen.R.Hydro (junction relations <=> flux conservation, "
         "residual zero set independent of the scale factor, detonation residual => conservation, c1/c2 = fluxes on both sides) "
         "+ Float translator validation + backward-error monitor of every real matching (polish the exact conservation laws) "
-        "+ branch/call-site log; distinct = (EOS, branch, rounded vw)")
+        "+ branch/call-site log + Props.C02M (decision logic of findMatching: Model.Matching) with exact correspondence of that model "
+        "against the REAL findMatching on scripted physics/solver stubs; distinct = (EOS, branch, rounded vw) or (logic shape, kind)")
 ASSUMPTIONS = ["scipy root(hybr), brentq, minimize_scalar(Bounded), solve_ivp are oracles; their results are monitored by backward error "
                "(distance to an exact solution of the conservation laws <= 50*(rtol + atol/T))",
                "theorem hypotheses: w = e + p, 0<v<1, e+ != e-, e+ + p- != 0, vpovm > 0 (checked on every real matching)"]
@@ -59,13 +60,47 @@ def check_matching(rep, name, th, h, vw, tier, prop="C02"):
     if not ok or err > BACKWARD_TOL:
         rep.violation(f"returned {branch} matching is not within tolerance of a solution of the conservation laws "
                       f"(backward error {err:.3g})", info, finding_key=f"{prop}:conservation:{branch}")
+    # all FOUR returned numbers together (the hybrid polish re-derives v- from T-, so it does not see a wrong returned v-)
+    rmax = max(abs(res[0]), abs(res[1])) if len(res) == 2 else math.inf
+    if rmax > 20 * BACKWARD_TOL:
+        rep.violation(f"returned (v+, v-, T+, T-) of the {branch} matching carry unequal fluxes (relative mismatch {rmax:.3g})",
+                      info, finding_key=f"{prop}:flux-residual:{branch}")
     return info
+
+
+def corr(rep: C.Report, tier: str):
+    """Model.Matching.findMatching (Float) vs the REAL Hydrodynamics.findMatching with scripted physics and solver stubs:
+    same outcome (own EOS / template fallback / detonation), same brackets handed to the root finders, in the same order."""
+    r = C.rng("C02corr")
+    lines, expect, kinds = [], [], []
+    for _ in range(400 if tier == "quick" else 5000):
+        kind, p = HC.matching_params(r)
+        lines.append("match " + " ".join(str(C.f2b(x)) for x in p))
+        try:
+            expect.append(HC.scripted_find_matching(p))
+        except Exception as ex:  # noqa: BLE001
+            expect.append(f"raised {type(ex).__name__}: {ex}")
+        kinds.append(kind)
+    outs = C.lean_run("MatchingF", lines)
+    bad = []
+    for ln, e, o_, k in zip(lines, expect, outs, kinds):
+        shape = e.split(" | ")[0].split()[0] + "|" + ",".join(x.split(":")[0] for x in (e.split(" | ")[1].split() if " | " in e else []))
+        rep.case(key=("findMatching-logic", shape, k))
+        rep.count(f"findMatching logic {shape}")
+        if e != o_:
+            bad.append({"params": [C.b2f(int(t)) for t in ln.split()[1:]], "real": e, "model": o_})
+    rep.obligation("correspondence Model.Matching.findMatching = real Hydrodynamics.findMatching on scripted physics/solver stubs "
+                   "(outcome, brackets, call order)", "correspondence", not bad and len(outs) == len(lines), f"{len(lines)} cases; {bad[:1]}")
+    rep.extra["matching_logic_disagreements"] = bad[:3]
+    return not bad
 
 
 def search(rep: C.Report, tier: str, broken):
     r = C.rng("C02")
     nv = 7 if tier == "quick" else 40
-    for name, th in HC.eos_families(tier):
+    # obligations broke (proof or translation no longer checks): look harder for a failing input
+    fam_tier = "thorough" if broken else tier
+    for name, th in HC.eos_families(fam_tier):
         try:
             h = HC.make_hydro(th)
         except Exception as ex:  # noqa: BLE001
